@@ -149,7 +149,7 @@ fn main() {
                 };
                 scen::graph_scenario(i, &mut srng, &o, family)
             }
-            "doc" | "doctext" | "docinv" | "histdoc" | "reload" | "rollback" | "iso" | "diff" | "patch" | "ids" | "idshi" | "migrate" | "badargs" | "isorich" | "serde" | "bulk" | "spans" | "anon" => {
+            "doc" | "doctext" | "docinv" | "histdoc" | "reload" | "rollback" | "iso" | "diff" | "patch" | "ids" | "idshi" | "migrate" | "badargs" | "isorich" | "serde" | "bulk" | "spans" | "anon" | "reloadlong" | "histlong" => {
                 if family == "isorich" {
                     amverif::proj::set_rich(true);
                 }
@@ -202,20 +202,29 @@ fn main() {
                     automerge::TextEncoding::UnicodeCodePoint
                 };
                 let o = scen::GraphOpts {
-                    weights: if family == "reload" || family == "ids" { scen::W_RELOAD } else if family == "iso" || family == "isorich" || family == "idshi" { scen::W_ISO } else if family == "migrate" { scen::W_CONFLICT } else { scen::W_DOC },
+                    weights: if family == "reload" || family == "ids" || family == "reloadlong" { scen::W_RELOAD } else if family == "histlong" { scen::W_CONFLICT } else if family == "iso" || family == "isorich" || family == "idshi" { scen::W_ISO } else if family == "migrate" { scen::W_CONFLICT } else { scen::W_DOC },
                     twin_start: false,
-                    base_calls: if family == "spans" {
+                    base_calls: if family == "reloadlong" {
+                        // 40 distinct strings of 8 characters: the value column of the saved document exceeds the
+                        // 256-byte threshold above which columns are DEFLATE-compressed
+                        let vals: Vec<serde_json::Value> = (0..40).map(|k| {
+                            let st: Vec<String> = format!("v{:03}abcd", k * 7).chars().map(|c| c.to_string()).collect();
+                            serde_json::json!({"k":"str","s":st.concat(),"n":0,"toks":st})
+                        }).collect();
+                        vec![serde_json::json!({"fn":"put_object","obj":[0,0],"key":"l","ty":"list"}),
+                             serde_json::json!({"fn":"splice","obj":[1,1],"idx":0,"del":0,"vals":vals})]
+                    } else if family == "spans" {
                         vec![serde_json::json!({"fn":"put_object","obj":[0,0],"key":"t","ty":"text"}),
                              serde_json::json!({"fn":"splice_text","obj":[1,1],"idx":0,"del":0,"toks":["a","b"]})]
                     } else { vec![] },
-                    readat: if family == "histdoc" { 10 } else if family == "reload" { 6 } else { 0 },
+                    readat: if family == "histlong" { 30 } else if family == "histdoc" { 10 } else if family == "reload" { 6 } else { 0 },
                     reload_before_readat: family == "reload",
                     rollback_pct: if family == "rollback" { 45 } else { 0 },
                     diffs: if family == "diff" { 6 } else { 0 },
                     log_patches: family == "patch",
-                    steps: 8 + srng.below(10),
+                    steps: if family == "reloadlong" || family == "histlong" { 45 + srng.below(25) } else { 8 + srng.below(10) },
                     max_reps: 3,
-                    max_changes: 10,
+                    max_changes: if family == "reloadlong" || family == "histlong" { 40 } else { 10 },
                     dup_actors: false,
                     obs: ObsLevel::View,
                     prof,
